@@ -44,6 +44,19 @@ CHECKS = {
         "assumptions": ["strategy forcing happens at the commands/graph layer (Server only accepts the concrete planner)",
                         "an error caused by an unevaluable condition is not counted as a different answer (see DESIGN.md C01/C02)"],
     },
+    "C03": {
+        "runs": [_r("TestC03", 1500, 100000)],
+        "rule": "rapid draws a world (generator G) and 4-10 Check requests (object, wildcard and userset subjects, contexts, contextual tuples); each "
+                "request goes through Server.Check with the weighted_graph_check flag (capturing logger; real adaptive planner, fall-back enabled) and "
+                "through the default engine on the same store. Object subjects: the returned decision must satisfy the reference semantics. Userset / "
+                "wildcard subjects: a difference between the two servers must come with the breaking-change warning in the log. The flag-on server may "
+                "fail only where the default engine fails. Non-trivial: the weighted path itself answered (no fall-back logged) and the model has a "
+                "non-direct rewrite. Distinct: hash of the case.",
+        "level_text": "exploration: generated worlds through both engines and the reference semantics; detector hits are counted per reason; "
+                      "the weighted engine's strategies are chosen by the real planner (sampled, not enumerated)",
+        "technique": "property-based testing (rapid), three-way differential: weighted engine vs default engine vs reference semantics, log-capture oracle for the detector",
+        "assumptions": ["R-sem is the specification for object subjects", "the server-level fall-back is enabled as in production"],
+    },
     "C05": {
         "runs": [_r("TestC05", 3000, 160000)],
         "rule": "rapid draws a world (generator G) and 2-6 ListObjects calls: engine in {classic reverse expansion, its weighted-graph "
